@@ -182,6 +182,23 @@ class IntTensorConst:
         self.values = values
 
 
+class SymIntSet:
+    """a Python set of (symbolic) ints whose elements were made pairwise distinct on the current path"""
+
+    def __init__(self, items):
+        self.items = list(items)
+
+    def __vf_len__(self, I):
+        return len(self.items)
+
+    def __vf_iter__(self, I):
+        return list(self.items)
+
+    def __vf_contains__(self, I, x):
+        import z3 as _z3
+        return _z3.Or(*[to_z3(x) == to_z3(y) for y in self.items]) if self.items else False
+
+
 class EnumVal:
     def __init__(self, cls, name):
         self.cls = cls
